@@ -4,8 +4,8 @@
 //! Case lines (see lean/Driver/Geometry.lean for the grammar).  Numbers are decimal integers or
 //! `h` + 16 hex digits of the f64 bit pattern, so model and implementation get exactly the same inputs.
 //!
-//! raw  = reported kind + coordinates rounded to the grid 2^-30 (≈ 1e-9); with the case prefix `bits` the full f64 bit
-//!        patterns (used only for the logged, non-alarmed bit-equality sample)
+//! raw  = reported kind + number of points (coordinates are not compared with the model: a numerically harmless rewrite
+//!        moves them by rounding noise); with the case prefix `bits`: kind + full f64 bit patterns (logged diagnostics only)
 //! view = mode K: reported kind (for small-integer configurations additionally cross-checked against the
 //!                kind decided here in exact i128 arithmetic: `X!=exact:Y` on disagreement)
 //!        mode P: `ok` iff every point the IMPLEMENTATION returned is within 1e-7 of both primitives, decided in exact
@@ -54,23 +54,32 @@ fn as_int(t: &str) -> Option<i128> {
     }
 }
 
-/// set per case: `bits` prefix => coordinates as full bit patterns, else rounded to the grid 2^-30
+/// set per case: `bits` prefix => raw carries coordinates as full bit patterns (diagnostics), else kind + count only
 static FULL_BITS: std::sync::atomic::AtomicBool = std::sync::atomic::AtomicBool::new(false);
+
+fn full_bits() -> bool {
+    FULL_BITS.load(std::sync::atomic::Ordering::Relaxed)
+}
 
 fn show_num(v: f64) -> String {
     if v.is_nan() {
         "nan".into()
-    } else if FULL_BITS.load(std::sync::atomic::Ordering::Relaxed) {
-        format!("{:016x}", v.to_bits())
     } else {
-        let g = (v * 1073741824.0).round();
-        if g.abs() < 4.0e18 {
-            format!("{}", g as i64)
-        } else if g > 0.0 {
-            "big+".into()
-        } else {
-            "big-".into()
+        format!("{:016x}", v.to_bits())
+    }
+}
+
+/// raw result: kind + number of points, or (diagnostic mode) kind + bit patterns
+fn show_pts(kind: &str, pts: &[Point]) -> String {
+    if full_bits() {
+        let mut raw = kind.to_string();
+        for p in pts {
+            raw.push(' ');
+            raw.push_str(&show_point(p));
         }
+        raw
+    } else {
+        format!("{} {}", kind, pts.len())
     }
 }
 
@@ -218,11 +227,17 @@ fn same_points(a: &[Point], b: &[Point]) -> bool {
     a.len() == b.len() && a.iter().zip(b).all(|(p, q)| p.x.to_bits() == q.x.to_bits() && p.y.to_bits() == q.y.to_bits())
 }
 
-fn ok_off(b: bool) -> &'static str {
+/// `ok`, or `off` followed by the offending result's coordinates (bit patterns) so that a replay file shows them
+fn ok_off_pts(b: bool, pts: &[Point]) -> String {
     if b {
-        "ok"
+        "ok".to_string()
     } else {
-        "off"
+        let mut s = "off".to_string();
+        for p in pts {
+            s.push(' ');
+            s.push_str(&show_point(p));
+        }
+        s
     }
 }
 
@@ -261,11 +276,7 @@ fn run_inner(t: &[&str]) -> Option<(String, String)> {
             // the way points are *reported*: `into_iter()` must yield the same points, same count, same order
             let it: Vec<Point> = intersect_cl(&c, &l).into_iter().collect();
             let iter_tag = if same_points(&pts, &it) { "" } else { " iter-mismatch" };
-            let mut raw = kind.to_string();
-            for p in &pts {
-                raw.push(' ');
-                raw.push_str(&show_point(p));
-            }
+            let raw = show_pts(kind, &pts);
             match mode {
                 "K" => {
                     let exact = match (as_int(a[0]), as_int(a[1]), as_int(a[2]), li) {
@@ -276,7 +287,7 @@ fn run_inner(t: &[&str]) -> Option<(String, String)> {
                 }
                 "P" => {
                     let ok = pts.iter().all(|p| near_circle(cx, cy, r, p) && near_line(&ls, p));
-                    (raw.to_string(), format!("{}{}", ok_off(ok), iter_tag))
+                    (raw.to_string(), format!("{}{}", ok_off_pts(ok, &pts), iter_tag))
                 }
                 _ => return None,
             }
@@ -298,11 +309,7 @@ fn run_inner(t: &[&str]) -> Option<(String, String)> {
             };
             let it: Vec<Point> = res.into_iter().collect();
             let iter_tag = if same_points(&pts, &it) { "" } else { " iter-mismatch" };
-            let mut raw = kind.to_string();
-            for p in &pts {
-                raw.push(' ');
-                raw.push_str(&show_point(p));
-            }
+            let raw = show_pts(kind, &pts);
             match mode {
                 "K" => {
                     let ints: Option<Vec<i128>> = a.iter().map(|s| as_int(s)).collect();
@@ -311,7 +318,7 @@ fn run_inner(t: &[&str]) -> Option<(String, String)> {
                 }
                 "P" => {
                     let ok = pts.iter().all(|p| near_circle(v[0], v[1], v[2], p) && near_circle(v[3], v[4], v[5], p));
-                    (raw.to_string(), format!("{}{}", ok_off(ok), iter_tag))
+                    (raw.to_string(), format!("{}{}", ok_off_pts(ok, &pts), iter_tag))
                 }
                 _ => return None,
             }
@@ -325,11 +332,9 @@ fn run_inner(t: &[&str]) -> Option<(String, String)> {
             let (lu, lw) = (u.build(), w.build());
             let par = parallel(&lu, &lw);
             let res = intersect_ll(&lu, &lw);
-            let raw = match &res {
-                None => format!("None par={}", par),
-                Some(p) => format!("Some {} par={}", show_point(p), par),
-            };
             let kind = if res.is_some() { "Some" } else { "None" };
+            let lpts: Vec<Point> = res.iter().cloned().collect();
+            let raw = format!("{} par={}", show_pts(kind, &lpts), par);
             match mode {
                 "K" => {
                     let exact = match (ui, wi) {
@@ -342,7 +347,7 @@ fn run_inner(t: &[&str]) -> Option<(String, String)> {
                 }
                 "P" => {
                     let ok = res.iter().all(|p| near_line(&u, p) && near_line(&w, p));
-                    (raw.to_string(), ok_off(ok).to_string())
+                    (raw.to_string(), ok_off_pts(ok, &lpts))
                 }
                 _ => return None,
             }
@@ -381,7 +386,7 @@ fn run_inner(t: &[&str]) -> Option<(String, String)> {
             let l = ls.build();
             let p = Point::new(px, py);
             let res = if l.contains(&p) { "true" } else { "false" };
-            let raw = format!("{} {}", res, show_num(l.dist(&p)));
+            let raw = if full_bits() { format!("{} {}", res, show_num(l.dist(&p))) } else { res.to_string() };
             let exact = match (li, as_int(a[n1]), as_int(a[n1 + 1])) {
                 (Some(l), Some(x), Some(y)) if l.0 != 0 || l.1 != 0 => {
                     Some(if l.0 * x + l.1 * y + l.2 == 0 { "true" } else { "false" })
@@ -396,7 +401,7 @@ fn run_inner(t: &[&str]) -> Option<(String, String)> {
                 return None;
             }
             let l = ls.build();
-            let raw = format!("{} {} {}", show_num(l.a), show_num(l.b), show_num(l.c));
+            let raw = if full_bits() { format!("{} {} {}", show_num(l.a), show_num(l.b), show_num(l.c)) } else { "line".to_string() };
             if l.a.is_nan() || l.b.is_nan() || l.c.is_nan() || l.a.is_infinite() || l.b.is_infinite() || l.c.is_infinite() {
                 return Some((raw, "nan".to_string()));
             }
